@@ -132,3 +132,32 @@ def run_m(res):
     res.cov.setdefault("samples", [])
     res.cov["samples"] += [{"program": r["name"], "source": open(os.path.join(tvrun.WORK, "src", r["name"] + ".roto")).read()[:300], "verdict_per_profile": r["profiles"]} for r in ok[:3]]
     return results
+
+
+def run_b(res):
+    """Engine B (tv/builtins.py): the float built-ins of the default runtime, from the MIR dump, against their IEEE-754 meaning."""
+    tv_engine.build()
+    import tv, builtins_b
+    mir_path = dump_mir()
+    rows, secs = builtins_b.check_all(open(mir_path).read(), REPO, tv.EXTRACT, os.path.join(BUILD, "builtins"))
+    decided = [r for r in rows if r["status"] == "ok"]
+    for r in rows:
+        if r["status"] == "violation":
+            res.violation(r["detail"], {"engine": "builtins", "type": r["type"], "name": r["name"], "replay": r["replay"], "counterexample": r["counterexample"]})
+        elif r["status"] == "inconclusive":
+            res.inconclusive.append(f"engine B: {r['type']}.{r['name']}: {r['why'][:200]}")
+    expected = {(t, n) for t in ("f32", "f64") for n in ("floor", "ceil", "round", "abs", "sqrt", "pow", "is_nan", "is_infinite", "is_finite")}
+    missing = expected - {(r["type"], r["name"]) for r in rows}
+    if missing:
+        # a documented float built-in that is no longer registered under its name cannot be "held"
+        res.inconclusive.append(f"engine B: documented float built-ins not found among the registrations in the MIR dump: {sorted(missing)}")
+    res.cov["builtins"] = {
+        "functions_encoded": [f"{r['type']}.{r['name']} (MIR body of its registered wrapper)" for r in rows if r["status"] != "no-spec"],
+        "decided": len(decided), "no_documented_counterpart_modelled": [f"{r['type']}.{r['name']}" for r in rows if r["status"] == "no-spec"],
+        "solver_queries": sum(r["queries"] for r in rows), "solver_s": round(sum(r["solver_s"] for r in rows), 2), "wall_s": round(secs, 1),
+        "mir_dump_s": _state.get("dump_s"),
+        "bounds": "none on the arguments (every f32/f64 bit pattern; all NaNs one value); powf uninterpreted (argument order only)",
+        "bodies": {f"{r['type']}.{r['name']}": r.get("body", "") for r in decided},
+    }
+    res.cov["evaluations"] = res.cov.get("evaluations", 0) + len(decided)
+    return rows
